@@ -1,5 +1,3 @@
-use std::vec;
-
 use log::debug;
 
 use crate::range_value;
@@ -53,40 +51,37 @@ fn crc56(message: &[u32]) -> u32 {
     data >> 8
 }
 
-/// Calculate the reminder of the message
+/// Calculate the part of the Mode S parity reminder that has to be zero
 ///
 /// # Arguments
 ///
-/// * `message` - The message to calculate the reminder
+/// * `message` - The message (14 or 28 nibbles) to calculate the reminder
 ///
 /// # Returns
 ///
-/// The reminder of the message
+/// The 24-bit CRC reminder of the whole frame for DF17/18, its upper 17 bits
+/// for DF11 (the low 7 carry the interrogator code) and 0 for the formats whose
+/// parity field is overlaid with the address and cannot be checked.
 ///
 pub(crate) fn reminder(message: &[u32]) -> u32 {
-    let generator = [0b11111111u16, 0b11111010u16, 0b00000100u16, 0b10000000u16];
+    const GENERATOR: u32 = 0x1FFF409;
 
-    let mut bytes = message[0..message.len() - 6]
-        .iter()
-        .map(|&x| (x & 0b1111) as u8)
-        .collect::<Vec<u8>>();
-    bytes.append(vec![0; 6].as_mut());
-
-    for i in 0..bytes.len() - 6 {
-        for j in 0..8u8 {
-            let mask = 0x80 >> j;
-            if bytes[i] & mask != 0 {
-                bytes[i] ^= (generator[0] >> j) as u8;
-                bytes[i + 1] ^= (generator[0] << (8 - j)) as u8 | (generator[1] >> j) as u8;
-                bytes[i + 2] ^= (generator[1] << (8 - j)) as u8 | (generator[2] >> j) as u8;
-                bytes[i + 3] ^= (generator[2] << (8 - j)) as u8 | (generator[3] >> j) as u8;
+    let reminder = message.iter().fold(0u32, |acc, &nibble| {
+        (0..4).rev().fold(acc, |acc, bit| {
+            let acc = (acc << 1) | ((nibble >> bit) & 1);
+            if acc & 0x1000000 != 0 {
+                acc ^ GENERATOR
+            } else {
+                acc
             }
-        }
-    }
+        })
+    });
 
-    (((bytes[bytes.len() - 3]) as u32) << 16)
-        | (((bytes[bytes.len() - 2]) as u32) << 8)
-        | (bytes[bytes.len() - 1]) as u32
+    match range_value(message, 1, 5) {
+        Some(17) | Some(18) => reminder,
+        Some(11) => reminder >> 7,
+        _ => 0,
+    }
 }
 
 #[cfg(test)]
